@@ -337,8 +337,7 @@ Require Import QV.C13.TEq QV.C13.ProofsTEq.
 (* `==` OF THE CODE WITH THE NUMBER KIND OF EXPRESSION CONSTANTS (Expression.__eq__ is sympy-structural: Integer(1) is not
    Float(1.0); DictScope constants and loop index values are compared by value).  It refines the value-based == of the
    model (so, by C13_eq_hash, equal scopes hash alike in the hash model and, by C13_eq_same_names_volatility, provide the
-   same names and report the same volatile parameters; that they denote the same VALUES is tested by check_spec
-   `sem_equal`, not proved), strictly; it is an equivalence on well-formed scopes; scopes of different classes are unequal *)
+   same names, report the same volatile parameters and, by C13_eq_same_mapping, denote the same mapping), strictly; it is an equivalence on well-formed scopes; scopes of different classes are unequal *)
 Theorem C13_typed_eq_refines : forall a b, tscope_eqb a b = true -> scope_eqb (erase_s a) (erase_s b) = true.
 Proof. exact tscope_eqb_erase. Qed.
 Print Assumptions C13_typed_eq_refines.
@@ -446,6 +445,23 @@ Theorem C13_typed_eq_same_names_volatility : forall a b, twf a = true -> tscope_
   (forall x, depends_on_volatile (erase_s a) x = depends_on_volatile (erase_s b) x).
 Proof. exact typed_eq_sem. Qed.
 Print Assumptions C13_typed_eq_same_names_volatility.
+
+Require Import QV.C13.ProofsEqVal.
+
+(* ... and denote the same mapping: one denotes iff the other does, and then every name has the same value (== on Q) *)
+Theorem C13_eq_same_mapping : forall a b, wf_scope a = true -> wf_scope b = true -> scope_eqb a b = true ->
+  ((exists d, denote_scope a = Ok d) <-> (exists d, denote_scope b = Ok d)) /\
+  forall d1 d2, denote_scope a = Ok d1 -> denote_scope b = Ok d2 ->
+    forall x, match lookup d1 x, lookup d2 x with Some p, Some q => p == q | None, None => True | _, _ => False end.
+Proof. exact scope_eqb_same_mapping. Qed.
+Print Assumptions C13_eq_same_mapping.
+
+Theorem C13_typed_eq_same_mapping : forall a b, twf a = true -> twf b = true -> tscope_eqb a b = true ->
+  ((exists d, denote_scope (erase_s a) = Ok d) <-> (exists d, denote_scope (erase_s b) = Ok d)) /\
+  forall d1 d2, denote_scope (erase_s a) = Ok d1 -> denote_scope (erase_s b) = Ok d2 ->
+    forall x, match lookup d1 x, lookup d2 x with Some p, Some q => p == q | None, None => True | _, _ => False end.
+Proof. exact typed_eq_same_mapping. Qed.
+Print Assumptions C13_typed_eq_same_mapping.
 
 (* non-vacuity of C13_unreported_is_constant *)
 Example C13_unreported_satisfiable :
